@@ -336,6 +336,12 @@ def evaluate_case(ctx, case, want_events=False):
         if v and v != "HARNESS":
             viol.append({"class": v, "sig": "%s|edge program %s|%s" % (v, case["edge_program"], detail.get("what")), "detail": detail})
         return {"twin": {"events": None}, "faulty": None, "violations": viol, "trace_hashes": [], "harness_error": detail if v == "HARNESS" else None, "edge_table": detail.get("table")}
+    if "fwd_unit" in case:
+        v, detail = _oracle.judge_fwd_unit(ctx.builder, ctx.tree, case["fwd_unit"], tuple(case["toolchain"]["a"]))
+        viol = []
+        if v == "FWD_MISMATCH":
+            viol.append({"class": v, "sig": "FWD_MISMATCH|au/units/%s_fwd.hh|%s" % (case["fwd_unit"], _norm_diag((detail.get("with_requirement") or {}).get("diag", ""))), "detail": detail})
+        return {"twin": {"events": None}, "faulty": None, "violations": viol, "trace_hashes": [], "harness_error": detail if v == "HARNESS" else None, "inconclusive": v == "BOTH_REJECT"}
     if "header_alone" in case:
         v, detail = _oracle.judge_header_alone(ctx.builder, case["header_alone"], tuple(case["toolchain"]["a"]))
         viol = []
